@@ -15,6 +15,7 @@ INVARIANT ModelPermutationInvariant
 INVARIANT ModelBetween
 INVARIANT OnLattice
 INVARIANT AlgRefinesObs
+INVARIANT WinIsBinning
 INVARIANT FitsInv
 CONSTRAINT Emit
 CHECK_DEADLOCK FALSE
